@@ -204,16 +204,19 @@ static void hx_canon(hx_buf *b, htp_connp_t *c) {
 
 /* coalesce runs of body-data and raw header/trailer-data callbacks */
 static void kinds_coalesced(hx_buf *out, const hx_buf *kinds) {
-    int last = 0;
+    /* body data is delivered per chunk, through up to three hooks that alternate (config-level body hook, tx-level body hook,
+     * PUT/multipart file hook): within one run of body-data callbacks each kind is kept once, in order of first appearance */
+    char seen[4]; int nseen = 0;
     for (size_t i = 0; i < kinds->n; i++) {
         int k = kinds->p[i];
         /* raw header/trailer data is flushed at every chunk end, so the number and position of these
          * callbacks follow the chunking by design; their concatenated content is compared instead */
         if (k == CB_REQ_HEADER_DATA || k == CB_RES_HEADER_DATA || k == CB_REQ_TRAILER_DATA || k == CB_RES_TRAILER_DATA) continue;
-        int co = (k == CB_REQ_BODY || k == CB_RES_BODY || k == CB_REQ_HEADER_DATA || k == CB_RES_HEADER_DATA || k == CB_REQ_TRAILER_DATA ||
-                  k == CB_RES_TRAILER_DATA || k == CB_REQ_BODY_TX || k == CB_RES_BODY_TX || k == CB_REQ_FILE);
-        if (co && k == last) continue;
-        hb_putc(out, k); last = k;
+        int co = (k == CB_REQ_BODY || k == CB_RES_BODY || k == CB_REQ_BODY_TX || k == CB_RES_BODY_TX || k == CB_REQ_FILE);
+        if (!co) { nseen = 0; hb_putc(out, k); continue; }
+        if (memchr(seen, k, (size_t) nseen)) continue;
+        if (nseen < 4) seen[nseen++] = (char) k;
+        hb_putc(out, k);
     }
 }
 
@@ -223,7 +226,14 @@ void hx_digest(const hx_obs *o, hx_buf *out, int flags) {
     for (int i = 0; i < o->ntx; i++) {
         const hx_txrec *r = &o->tx[i];
         hb_printf(out, "tx %d kinds=", i);
-        if (flags & DG_COALESCE) kinds_coalesced(out, &r->kinds); else hb_put(out, r->kinds.p, r->kinds.n);
+        if (flags & DG_COALESCE) {
+            /* per side: where the caller may resume the other stream follows the chunk ends, so the relative order of request-side
+             * and response-side callbacks of one transaction is a matter of the schedule, not of the parse */
+            hx_buf side[3] = { { 0 }, { 0 }, { 0 } };
+            for (size_t j = 0; j < r->kinds.n; j++) { int k = r->kinds.p[j]; hb_putc(&side[k == CB_TX_COMPLETE ? 2 : (k >= 'A' && k <= 'Z') ? 1 : 0], k); }
+            kinds_coalesced(out, &side[0]); hb_putc(out, '|'); kinds_coalesced(out, &side[1]); hb_putc(out, '|'); hb_put(out, side[2].p, side[2].n);
+            hb_free(&side[0]); hb_free(&side[1]); hb_free(&side[2]);
+        } else hb_put(out, r->kinds.p, r->kinds.n);
         hb_printf(out, "\n tx %d rawreq(%zu)=\"", i, r->raw[0].n); hb_esc(out, r->raw[0].p, r->raw[0].n > 2048 ? 2048 : r->raw[0].n);
         hb_printf(out, "\" h=%016llx\n tx %d rawres(%zu)=\"", (unsigned long long) hx_fnv(r->raw[0].p, r->raw[0].n, 0), i, r->raw[1].n);
         hb_esc(out, r->raw[1].p, r->raw[1].n > 2048 ? 2048 : r->raw[1].n);
